@@ -103,6 +103,47 @@ w('\nBesides these, every builder ran its own self-test (3-13 property-breaking 
   'refactorings stayed quiet except where they change a source shape that a translator in `tools/tables/` insists on, '
   'which ends - by design, section 2.3 - in `VIOLATION ... no-failing-input-found` naming the table obligation.\n')
 
+# ---------------------------------------------------------------- 14b harmless
+w('\n\n## 14b. Harmless changes: do the checks stay quiet on code for which the property holds?\n')
+w('A second set of fresh sub-agents (brief: `notes/HARMLESS_BRIEF.md`), again given only the property text and a scratch '
+  'worktree, wrote three *behaviour-preserving* changes per property to the code the property is anchored in: `h1` a local '
+  'clean-up, `h2` a structural refactoring (functions split or merged, internal representation changed), `h3` a change of '
+  'behaviour outside the property (wording of errors and logs, extra attributes).  Each author checked its patches with a '
+  'before/after transcript of its own; the owner ran every patch with `tools/try_harmless.py` (fresh worktree, unedited '
+  'suite, quick check from an isolated copy of `/verif`).  The patches and verdicts are in `harmless/<id>/`.  A verdict '
+  '`alarm` on such a patch is always of the kind `no-failing-input-found` (a translator did not recognise the new source '
+  'shape, or a correspondence stream compared something the property does not constrain); the specification allows that '
+  'outcome for a harmless rewrite, but each one costs the user an investigation, so the translators were then reworked '
+  '(`notes/ROBUSTNESS_BRIEF.md`): a table is regenerated by recognising the source shape *or* by probing the code over the '
+  'table\'s finite domain (both must agree where both work), purely structural guards became advisories that widen the '
+  'correspondence run, and correspondence streams compare what the statement constrains (error class and name, not locally '
+  'generated wording; behaviour of a rule, not its attribute layout).  `meta.json` keeps the first verdict under '
+  '`checks_first_run`.\n')
+hrows = []
+hq = ha = hfirst = 0
+for d in sorted(glob.glob(os.path.join(V, 'harmless/*/meta.json'))):
+    m = json.load(open(d))
+    summ = re.sub(r'\s+', ' ', (m.get('summary') or '').replace('|', '\\|'))
+    if len(summ) > 200:
+        summ = summ[:197] + '...'
+    for p, c in m.get('checks', {}).items():
+        first = (m.get('checks_first_run') or {}).get(p)
+        v = c['verdict']
+        if v == 'quiet':
+            hq += 1
+        else:
+            ha += 1
+            obs = sorted({b[0] for x in c.get('detail', []) for b in x.get('broken', [])})
+            v = '**alarm** (`no-failing-input-found`: %s)' % ', '.join(obs)
+        if first and first['verdict'] != 'quiet':
+            hfirst += 1
+            obs = sorted({b[0] for x in first.get('detail', []) for b in x.get('broken', [])})
+            v += ' (first run: alarm on %s; machinery reworked)' % ', '.join(obs)
+        hrows.append('| %s | %s | %s | %s |\n' % (m['id'], p, summ, v))
+w('\n%d runs of harmless patches are filed: %d quiet, %d alarms; %d of the quiet ones alarmed before the rework.\n' % (len(hrows), hq, ha, hfirst))
+w('\n| id | check | what the change does | verdict of the quick check |\n|---|---|---|---|\n')
+out.extend(hrows)
+
 # ---------------------------------------------------------------- 15 reviews
 w('\n\n## 15. Independent reviews\n')
 w('After the checks were built, a fresh reviewer per property (brief: `notes/REVIEW_BRIEF.md`) compared the theorems '
